@@ -555,6 +555,8 @@ func (e *Env) evalCall(n *ast.CallExpr) TV {
 		name := fmt.Sprintf("I$visited%d$%s", ord, ks)
 		h := x.heap(e.st, name, arraySort("Int", arraySort(ks, "Bool")))
 		return TV{tt.Select(tt.Select(h, tt.IntLit(0)), asTerm(k.V)), tBool}
+	case "isJSON":
+		return TV{x.isJSON(asTerm(arg(0).V)), tBool}
 	case "pooltag":
 		return TV{tt.UF("pooltag$", "Int", asTerm(arg(0).V)), tInt}
 	case "tidof":
@@ -947,6 +949,16 @@ func (c *Contract) frameTags() []string {
 		}
 	}
 	return o2
+}
+
+func (c *Contract) frameTagsPlus(extra []string) []string {
+	out := append([]string{}, c.frameTags()...)
+	for _, t := range extra {
+		if !hasTag(out, t) {
+			out = append(out, t)
+		}
+	}
+	return out
 }
 
 // specFuncs: engine-defined specification functions.
